@@ -4,8 +4,12 @@ TLC enumerates operator trees x leaf rows x every split of the rows into partiti
 model that driving all declared root partitions (in any order) yields an answer the partition-free semantics
 allows, and emits every finished run.  Each emitted run is rebuilt from the engine's PUBLIC operator
 constructors over a fixed-partition leaf and every declared partition of the real root is executed (ascending,
-descending, concurrently in one task, concurrently in spawned tasks; plain / spillable / spillable-under-a-
-tiny-budget operator implementations; RAYON_NUM_THREADS 1/2/4/8).
+descending, concurrently in one task, concurrently in spawned tasks; RAYON_NUM_THREADS 1/2/4/8 by shard).
+Implementation profiles: 0 = SortExec / HashAggregateExec / HashJoinExec on every case; 1 = ExternalSortExec /
+SpillableHashAggregateExec / SpillableHashJoinExec with the default budget and 2 = the same with a 1-byte
+budget (spilled sort / aggregate paths) on every third applicable case, and on every case that has the shape
+of an open finding.  A join node with the spill flag always is a SpillableHashJoinExec whose budget is the
+size of its largest build batch (spill path: partition 0 answers everything).
 
     run_partition_contract(ctx)        called from checks/c07.py
     selftest_partition_contract(ctx)   corrupts expectations / records and requires rejection
@@ -17,6 +21,11 @@ allows; an ordered root is out of key order; a node accepts the partition one pa
 A wrong bag that is EQUALLY wrong when all rows of every leaf sit in one batch of one partition is not a
 partitioning effect (it belongs to the SQL-semantics properties): recorded as drift, exit 0.
 Fidelity (notes only): declared partition counts and leaf-partition open counts differ from the model.
+
+Integration (checks/c07.py): call run_partition_contract(ctx) from run(), selftest_partition_contract(ctx)
+from selftest() (returns 0/1), and route replay files whose obj["case"].get("kind") == "partition_contract"
+to replay_partition_contract(ctx, obj).  Numeric evidence keys are ADDED (ctx.add), details are under
+coverage["partition_contract"].
 """
 import concurrent.futures as cf
 import copy
@@ -38,7 +47,7 @@ MODES = ("asc", "desc", "join", "spawn")
 K_JOIN = "C07/outer-join-build-without-batches"
 K_SORT = "C07/spilled-sort-merge-nulls-last"
 K_RX = "C07/aggregate-fallback-reexecutes-join"
-SHARD = 4000           # harness cases per qev process
+NSHARDS = {"quick": 16, "thorough": 120}   # qev processes; a case's shard (and so its thread count) is a function of its content
 GRID = 97              # every GRID-th record is returned in full and re-judged here
 RAYON = ("1", "2", "4", "8")
 _CASE = re.compile(r'^<<"CASE", (".*")>>$')
@@ -106,7 +115,8 @@ def nodes_of(t, out=None):
 def profiles(t, cid, every, dev=()):
     """0 plain operators; 1 spillable operators, default budget; 2 spillable sort/aggregate under a 1-byte budget.
     The spillable profiles cost 5-15 ms per case (threads, spill files): they rotate over the enumeration,
-    each applicable case getting profile p when (cid + p) % every == 0."""
+    each applicable case getting profile p when (cid + p) % every == 0 (cid: a hash of the case, so the choice
+    does not depend on the order in which TLC's workers emit)."""
     ops = ops_of(t)
     pr = [0]
     if ops & {"sort", "agg", "join"} and ((cid + 1) % every == 0 or dev):     # shapes of open findings: never rotated away
@@ -122,6 +132,12 @@ def describe(t):
     return f"{t['op']}({t['a']},{t['b']})[" + ",".join(describe(k) for k in t["kids"]) + "]"
 
 
+def skeleton(t):
+    if t["op"] == "leaf":
+        return "leaf"
+    return f"{t['op']}({t['a']},{t['b']})[" + ",".join(skeleton(k) for k in t["kids"]) + "]"
+
+
 def trivial_split(t):
     """the same tree and rows with all rows of every leaf in ONE batch of ONE partition"""
     t = copy.deepcopy(t)
@@ -134,13 +150,15 @@ def trivial_split(t):
 class Feeder:
     """turns TLC cases into harness cases (one per applicable implementation profile), sharded on disk"""
 
-    def __init__(self, ctx, tag, every):
+    def __init__(self, ctx, tag, every, nshards):
         self.ctx, self.tag, self.every = ctx, tag, every
         self.dir = os.path.join(ctx.work, "partcontract")
         os.makedirs(self.dir, exist_ok=True)
-        self.shards = []
-        self.f = None
-        self.in_shard = 0
+        for old in os.listdir(self.dir):
+            if old.startswith(tag + ".") and old.endswith(".ndjson"):
+                os.remove(os.path.join(self.dir, old))
+        self.shards = [os.path.join(self.dir, f"{tag}.{i:03d}.in.ndjson") for i in range(nshards)]
+        self.files = [open(p, "w") for p in self.shards]
         self.ncases = 0
         self.nharness = 0
         self.digests = set()
@@ -153,16 +171,11 @@ class Feeder:
             "ordered_root", "several_answers_allowed", "shape:jz", "shape:sn", "shape:rx", "depth>=2", "depth>=3", "leaves>=2", "leaves>=3")}
         self.samples = []
 
-    def _open(self):
-        path = os.path.join(self.dir, f"{self.tag}.{len(self.shards):03d}.in.ndjson")
-        self.shards.append(path)
-        self.f = open(path, "w")
-        self.in_shard = 0
-
     def close(self):
-        if self.f:
-            self.f.close()
-            self.f = None
+        for f in self.files:
+            f.close()
+        self.files = []
+        self.samples = [s for _, s in sorted(self.samples)[:3]]
 
     def features(self, c):
         ft = self.feat
@@ -217,20 +230,19 @@ class Feeder:
         self.fam[c["fam"]] = self.fam.get(c["fam"], 0) + 1
         nt = self.features(c)
         dg = hashlib.blake2b(json.dumps(c["t"], sort_keys=True).encode(), digest_size=8).digest()
+        h = int.from_bytes(dg, "big")
         if dg not in self.digests:
             self.digests.add(dg)
             if nt:
                 self.nontrivial += 1
-        if len(self.samples) < 3 and (cid % 7919 == 11 or cid in (5, 1500)):
-            self.samples.append({"tree": describe(c["t"]), "allowed_answers": c["acc"][:3], "root_partitions": c["np"], "family": c["fam"]})
-        for prof in profiles(c["t"], cid, self.every, c.get("dev", [])):
-            if self.f is None or self.in_shard >= SHARD:
-                self.close()
-                self._open()
+        if h % 1009 == 7 and nt:      # a few samples, chosen by content
+            self.samples.append((h, {"tree": describe(c["t"]), "allowed_answers": c["acc"][:3], "root_partitions": c["np"], "family": c["fam"]}))
+            self.samples = sorted(self.samples)[:3]
+        f = self.files[h % len(self.files)]
+        for prof in profiles(c["t"], h, self.every, c.get("dev", [])):
             hc = {"id": cid * 4 + prof, "prof": prof, "t": c["t"], "acc": c["acc"], "ord": c["ord"], "np": c["np"],
                   "lu": c["lu"], "dev": c.get("dev", []), "fam": c["fam"]}
-            self.f.write(json.dumps(hc, separators=(",", ":")) + "\n")
-            self.in_shard += 1
+            f.write(json.dumps(hc, separators=(",", ":")) + "\n")
             self.nharness += 1
 
 
@@ -340,8 +352,7 @@ def collect(ctx, shards, outs, stats, notes):
         with open(path) as f:
             for line in f:
                 nlines += 1
-                # ids are written as the first field
-                m = re.match(r'^\{"id":(\d+),', line)
+                m = re.search(r'"id":\s*(\d+)', line)      # the only "id" of a case line
                 if not m or int(m.group(1)) not in recs:
                     continue
                 case = json.loads(line)
@@ -356,6 +367,8 @@ def collect(ctx, shards, outs, stats, notes):
                     bad.append((case, rec, an))
         if recs:
             raise vlib.ToolError(f"{len(recs)} harness records have no case in {path}")
+        if nlines == 0:
+            continue
         stats["records"] += nlines
     return bad
 
@@ -400,8 +413,10 @@ def settle(ctx, bad, tag, pc):
             pc["known"][fid] = pc["known"].get(fid, 0) + 1
         elif case["id"] in indep:
             pc["drift_not_a_partitioning_effect"] += 1
-            if len(pc["drift_examples"]) < 4:
-                pc["drift_examples"].append({"tree": describe(case["t"])[:300], "got": an[0][1].get("got"), "allowed": case["acc"][:2]})
+            key = f"{skeleton(case['t'])} profile {case['prof']}"
+            if key not in pc["drift_by_shape"] and len(pc["drift_examples"]) < 12:
+                pc["drift_examples"].append({"tree": describe(case["t"])[:300], "profile": case["prof"], "got": an[0][1].get("got"), "allowed": case["acc"][:2]})
+            pc["drift_by_shape"][key] = pc["drift_by_shape"].get(key, 0) + 1
         else:
             ctx.violation(short(case, rec, an), why_text(case, an))
 
@@ -410,8 +425,8 @@ def settle(ctx, bad, tag, pc):
 def run_partition_contract(ctx):
     t0 = time.time()
     quick = ctx.tier == "quick"
-    feeder = Feeder(ctx, ctx.tier, 3 if quick else 2)
-    res = stream_tlc(ctx, f"PartitionContract_{ctx.tier}.cfg", "C07-partcontract", feeder, workers=8, timeout=3000, coverage=not quick)
+    feeder = Feeder(ctx, ctx.tier, 3, NSHARDS[ctx.tier])
+    res = stream_tlc(ctx, f"PartitionContract_{ctx.tier}.cfg", "C07-partcontract", feeder, workers=8, timeout=3000, coverage=False)
     feeder.close()
     vlib.tlc_must_pass(res, "PartitionContract")
     ctx.tlc_stats(res, f"PartitionContract.tla ({ctx.tier}): operational partition semantics of every tree x rows x split stays inside the partition-free "
@@ -419,10 +434,8 @@ def run_partition_contract(ctx):
     t_tlc = time.time() - t0
     if feeder.ncases < (5000 if quick else 100000):
         raise vlib.ToolError(f"PartitionContract emitted only {feeder.ncases} cases")
-    if not quick:
-        for act in ("LoadData", "LoadSplit", "Drive"):
-            if res.coverage.get(act, 0) == 0:
-                raise vlib.ToolError(f"PartitionContract: action {act} never taken")
+    # vacuity: the three actions are taken on every path to a finished run; what can silently go missing is a
+    # KIND of case, so every feature counter of the emitted cases has to be non-zero
     need = [k for k, v in feeder.feat.items() if v == 0 and not (quick and k in ("depth>=3", "leaves>=3"))]
     if need:
         raise vlib.ToolError(f"PartitionContract: no emitted case exercises {need}")
@@ -432,7 +445,7 @@ def run_partition_contract(ctx):
     bad = collect(ctx, feeder.shards, outs, stats, notes)
     if stats["records"] != feeder.nharness:
         raise vlib.ToolError(f"harness answered {stats['records']} of {feeder.nharness} cases")
-    pc = {"known": {}, "drift_not_a_partitioning_effect": 0, "drift_examples": []}
+    pc = {"known": {}, "drift_not_a_partitioning_effect": 0, "drift_examples": [], "drift_by_shape": {}}
     settle(ctx, bad, ctx.tier, pc)
     for fid, shape in ((K_JOIN, "shape:jz"), (K_SORT, "shape:sn"), (K_RX, "shape:rx")):
         if ctx.is_known(fid) and feeder.feat[shape] > 0 and fid not in pc["known"]:
@@ -480,7 +493,7 @@ def replay_partition_contract(ctx, obj):
     vlib.write_ndjson(path, [case])
     stats = {"records": 0, "abbreviated_pass": 0, "rejudged_in_full": 0}
     bad = collect(ctx, [path], run_shards(ctx, [path], grid=1, par=1), stats, {})
-    pc = {"known": {}, "drift_not_a_partitioning_effect": 0, "drift_examples": []}
+    pc = {"known": {}, "drift_not_a_partitioning_effect": 0, "drift_examples": [], "drift_by_shape": {}}
     settle(ctx, bad, "replay", pc)
     ctx.add("evaluations")
     ctx.add("distinct_nontrivial", 1)
